@@ -398,7 +398,8 @@ ReplyComplete == AtRest => \A r \in Range(sentS) :
 \* while its association is alive every datagram of a client leaves through that association
 SrcStable == Sync => \A e \in Range(outT) : LET d == Dg(e.did) IN (d.la # 0 /\ ~Gone(d.la)) => e.a = d.la
 \* one source socket per association, never shared; it carries only its client's datagrams
-SrcPrivate == \A e1, e2 \in Range(outT) : (e1.sock = e2.sock) <=> (e1.a = e2.a)
+SrcPrivate == \A e1, e2 \in Range(outT) : /\ (e1.sock = e2.sock) <=> (e1.a = e2.a)
+                                          /\ (e1.sock = e2.sock) => (Dg(e1.did).c = Dg(e2.did).c)
 \* whatever arrives on an association's socket is delivered to its owner and to nobody else
 OwnerOnly == \A a \in AIds : \A r \in Range(outC[a]) : \E m \in Adds : m.a = a /\ m.c = r.c
 \* at most one live association per client: when one is added, every earlier one of that client has been removed
